@@ -314,12 +314,14 @@ Lib == \/ \E h \in Hubs : Report(h) \/ \E k \in 0..2 : Prepare(h, k)
 LibIdle == ~ENABLED Lib
 \* ... and with what the hub's registry held for the peer at that moment (the harness waits for the real hub to get there)
 RegState(h) == IF h \notin Hubs THEN "" ELSE IF reg[h] = 0 THEN "none" ELSE IF conn[reg[h]].done THEN "done" ELSE "setup"
+\* (a transport cut names the hub that accepted the connection and how far that connection had come)
+LogSt(op, h, st) == script' = IF EmitMode = "none" THEN script ELSE Append(script, [op |-> op, h |-> h, quiet |-> LibIdle, st |-> st])
 Log(op, h) == script' = IF EmitMode = "none" THEN script ELSE Append(script, [op |-> op, h |-> h, quiet |-> LibIdle, st |-> RegState(h)])
 Env == \/ \E h \in Hubs : (Register(h) /\ Log("Register", h)) \/ (Appear(h) /\ Log("Appear", h)) \/ (Disconnect(h) /\ Log("Disconnect", h))
                           \/ (Unregister(h) /\ Log("Unregister", h)) \/ (Disappear(h) /\ Log("Disappear", h))
                           \/ (Restart(h) /\ Log("Restart", h)) \/ (Shutdown(h) /\ Log("Shutdown", h))
                           \/ (Cancel(h) /\ Log("Cancel", h)) \/ (SetAuto(h, TRUE) /\ Log("AutoOn", h)) \/ (SetAuto(h, FALSE) /\ Log("AutoOff", h))
-       \/ \E c \in Conns : (Cut(c) /\ Log("Cut", ""))
+       \/ \E c \in Conns : (Cut(c) /\ LogSt("Cut", conn[c].sv, IF conn[c].done THEN "done" ELSE IF conn[c].spc = "reg" THEN "setup" ELSE "none"))
 Next == (Lib /\ UNCHANGED script) \/ Env
 Spec == Init /\ [][Next]_vars /\ WF_vars(Lib)
 
